@@ -11,6 +11,17 @@ discards the case (counted).  ``array_contract`` (arbitrary hashable labels, out
 -1, -2, ... give the output order) are compared with numpy.einsum on the equivalent
 single-character equation built by the harness.
 
+Many labels (monitor many_labels): one contraction in every 64 cases has 27-70 distinct labels (20-55
+small tensors, sizes 1-3, product of all sizes < 2e5, labels appearing exactly once spread over the
+appearance ranks 1-26, 27-52 and > 52 - the canonical symbols of these three ranges are a-z, A-Z and
+chr(192).., whose sorted order is NOT the order of first appearance).  ``array_contract`` (and, with the
+same arguments, ``array_contract_expression`` / ``array_contract_tree(...).contract`` /
+``array_contract_path`` fed back as ``optimize``; output None in 85 %) is compared in shape and value with
+numpy.einsum in integer-sublist form, the documented first-appearance output spelled out (<= 52 labels),
+or, beyond numpy's 52 labels, with E1 on the call with the size-1 labels squeezed away (cross-checked
+against numpy.einsum on the same squeezed call).  ``cotengra.einsum`` gets string / interleaved calls with
+27-52 distinct symbols over numpy's whole alphabet a-zA-Z (implicit output: sorted, upper case first).
+
 ``classify`` recognises mechanisms by *differential confirmation*: a violation gets a key only if
 exactly one "repair" of the call is applicable and makes the very same oracle pass:
 
@@ -46,7 +57,12 @@ RULE = (
     "(op, sublist, ..., [out]) form with int sublists and Ellipsis; single-operand fast paths; "
     "repeated indices; rank-0 operands; sizes 1-4; optimize in {greedy, optimal, auto}; plus a "
     "tagged class with size-1 broadcasting of ellipsis dims (K1); array_contract with int / tuple / "
-    "str / frozenset / mixed labels, output given or None, size_dict given or not; ncon networks. "
+    "str / frozenset / mixed labels, output given or None, size_dict given or not; ncon networks; "
+    "plus, once per 64 cases, a contraction with many labels: array_contract / array_contract_expression "
+    "/ array_contract_tree / array_contract_path with 27-70 distinct labels of the same kinds (20-55 "
+    "tensors of rank 1-5, sizes 1-3, 2-8 labels appearing once spread over appearance ranks <=26, 27-52 "
+    "and >52, output None in 85 %), or cotengra.einsum (string / interleaved, implicit / explicit output) "
+    "with 27-52 distinct symbols from a-zA-Z. "
     "distinct = distinct (form, equation skeleton [symbols replaced by their sorted rank], rank "
     "pattern); non-trivial = has an ellipsis or an implicit output"
 )
@@ -55,6 +71,9 @@ ASSUMPTIONS = [
     "case against the harness's own gather-based evaluator on the harness's expansion of the call "
     "(monitor numpy_vs_E1; a disagreement is reported as inconclusive, never as a violation)",
     "numpy backend only",
+    "contractions with more than 52 labels cannot be written as one numpy.einsum call: the reference is the "
+    "harness's gather-based evaluator E1 applied after removing every size-1 label (a size-1 label selects "
+    "element 0 and contributes one summand), cross-checked against numpy.einsum on the same reduced call",
     "witnesses kept per shard: 1 per (confirmed mechanism key, monitor), 2 per (monitor, raises|shape|value) for "
     "unexplained failures; every failure is counted in 'violations_by_signature'",
 ]
@@ -64,9 +83,11 @@ REQUIRED_MONITORS = [
     "ncon_vs_numpy",
     "interleaved_vs_numpy",
     "single_operand_vs_numpy",
+    "many_labels",
 ]
 SHARD_TIMEOUT = {"quick": 400, "thorough": 3600}
 
+MANY_EVERY = 64  # one many-label contraction per this many ordinary cases
 K1_KEY = "ellipsis-size1-broadcast"
 ELL = "..."
 OPTIMIZE = ("greedy", "greedy", "optimal", "auto")
@@ -132,6 +153,10 @@ def make_arrays(case):
         shp = tuple(int(d) for d in shp)
         if kind == "int":
             a = nprng.integers(-3, 4, size=shp).astype(np.float64)
+        elif kind == "smallint":
+            # many-operand products: non-zero (no operand can hide an error by being 0) and mostly
+            # +-1, so that every partial sum stays an exactly representable integer
+            a = nprng.choice(np.array([1.0, 1.0, 1.0, -1.0, -1.0, 2.0, -2.0]), size=shp)
         elif kind == "int64":
             a = nprng.integers(-3, 4, size=shp).astype(np.int64)
         elif kind == "complex":
@@ -145,7 +170,7 @@ def make_arrays(case):
 
 
 def exact_kind(kind):
-    return kind in ("int", "int64")
+    return kind in ("int", "int64", "smallint")
 
 
 # --------------------------------------------------------------------------- #
@@ -278,6 +303,81 @@ def _sym(i):
     return "abcdefghijklmnopqrstuvwxyzABCDEFGHIJKLMNOPQRSTUVWXYZ"[i]
 
 
+NP_MAX_LABELS = 52  # numpy.einsum: 52 letters, integer sublist labels 0..51
+NP_MAX_OPERANDS = 60  # below numpy's operand limit (NPY_MAXARGS = 64)
+
+
+def numbered(case):
+    """array_contract: labels -> 0, 1, 2, ... in order of first appearance; (terms, output) with the
+    documented implicit output (labels appearing exactly once, in order of first appearance)."""
+    num = {}
+    terms = [[num.setdefault(repr(e), len(num)) for e in term] for term in case["inputs"]]
+    if case["output"] is None:
+        flat = [k for t in terms for k in t]
+        cnt = {}
+        for k in flat:
+            cnt[k] = cnt.get(k, 0) + 1
+        out = [k for k in dict.fromkeys(flat) if cnt[k] == 1]
+    else:
+        out = [num[repr(e)] for e in case["output"]]
+    return terms, out
+
+
+def many_reference(rep, case, arrays):
+    """The specification for an array_contract call with many (27-70) distinct labels, where no
+    single-character equation exists.  Returns (want, bound, nsum) or None (inconclusive).
+
+    <= 52 labels: numpy.einsum in integer-sublist form, the documented output spelled out, cross-checked
+    against E1.  More labels: numpy cannot express the call; E1 (label-agnostic) on the call with all
+    size-1 labels squeezed away (numpy arrays have at most 64 dims; a size-1 label contributes a factor
+    x[..., 0, ...] and one summand) is the reference, cross-checked against numpy.einsum on the same
+    squeezed call."""
+    terms, out = numbered(case)
+    n = len(arrays)
+    sizes = {}
+    for t, a in zip(terms, arrays):
+        for k, d in zip(t, a.shape):
+            sizes[k] = int(d)
+    nsum = math.prod(d for k, d in sizes.items() if k not in out)
+    keep = sorted(k for k, d in sizes.items() if d != 1)
+    re = {k: i for i, k in enumerate(keep)}
+    sq_terms = [[re[k] for k in t if k in re] for t in terms]
+    sq_arrays = [a.reshape([d for d in a.shape if d != 1]) for a in arrays]
+    sq_out = [re[k] for k in out if k in re]
+    full_shape = [sizes[k] for k in out]
+    e1, b1, n1 = ref.dense_einsum(sq_terms, sq_out, sq_arrays, with_bound=True)
+    e1 = np.asarray(e1).reshape(full_shape)
+    b1 = np.asarray(b1).reshape(full_shape)
+
+    def np_call(ts, o, arrs):
+        args = []
+        for a, t in zip(arrs, ts):
+            args += [a, list(t)]
+        args.append(list(o))
+        return np.einsum(*args)
+
+    if len(sizes) <= NP_MAX_LABELS and n <= NP_MAX_OPERANDS:
+        want = np_call(terms, out, arrays)
+        bound = np_call(terms, out, [np.abs(a) for a in arrays])
+        rep.count("many_labels_reference", "numpy interleaved, explicit first-appearance output (<= 52 labels)")
+        other, what = e1, "numpy disagrees with E1"
+    else:
+        want, bound = e1, b1
+        rep.count("many_labels_reference", "E1 on the squeezed call (> 52 labels)")
+        if len(keep) > NP_MAX_LABELS or n > NP_MAX_OPERANDS:
+            return want, bound, nsum  # numpy cannot express even the squeezed call: E1 alone
+        other, what = np_call(sq_terms, sq_out, sq_arrays).reshape(full_shape), "numpy (squeezed call) disagrees with E1"
+    rep.mon("numpy_vs_E1")
+    msg = ref.compare(other, want, b1, n1, n)
+    if msg is None and exact_kind(case["kind"]) and float(np.max(b1, initial=0.0)) < 2.0**52:
+        if not np.array_equal(other, want):
+            msg = "integer data not exact"
+    if msg is not None:
+        rep.inconclusive_case(f"{what} on {describe(case)}: {msg}")
+        return None
+    return want, bound, nsum
+
+
 # --------------------------------------------------------------------------- #
 #                                   oracle                                    #
 # --------------------------------------------------------------------------- #
@@ -285,8 +385,9 @@ def _sym(i):
 
 def monitors_of(case):
     e = case["entry"]
+    many = ["many_labels"] if case.get("many") else []
     if e == "array_contract":
-        return ["array_contract_vs_numpy"]
+        return ["array_contract_vs_numpy"] + many
     if e == "ncon":
         return ["ncon_vs_numpy"]
     mons = []
@@ -296,7 +397,7 @@ def monitors_of(case):
         mons.append("single_operand_vs_numpy")
     if e == "einsum" and len(case["shapes"]) > 1:
         mons.append("einsum_vs_numpy")
-    return mons
+    return mons + many
 
 
 def _short(e):
@@ -316,9 +417,19 @@ def execute(rep, case):
     n = len(arrays)
 
     # ---- the specification -------------------------------------------------
+    np_args = None
     if entry in ("einsum", "interleaved"):
         np_args = einsum_args(case, arrays)
         abs_args = einsum_args(case, [np.abs(a) for a in arrays])
+    elif entry == "array_contract" and case.get("many"):
+        try:
+            r = many_reference(rep, case, arrays)
+        except Exception as e:
+            rep.inconclusive_case(f"harness could not evaluate the many-label reference: {e!r} on {describe(case)}")
+            return None
+        if r is None:
+            return None
+        want, bound, nsum_many = r
     else:
         try:
             eq = equivalent_eq(case)
@@ -327,14 +438,15 @@ def execute(rep, case):
             return None
         np_args = [eq, *arrays]
         abs_args = [eq, *[np.abs(a) for a in arrays]]
-    try:
-        want = np.einsum(*np_args)
-        bound = np.einsum(*abs_args)
-    except Exception as e:
-        rep.count("discarded", _short(e))
-        rep.count("discarded_by_form", case.get("form", entry))
-        return None
-    nsum = int(case.get("space") or 1)
+    if np_args is not None:
+        try:
+            want = np.einsum(*np_args)
+            bound = np.einsum(*abs_args)
+        except Exception as e:
+            rep.count("discarded", _short(e))
+            rep.count("discarded_by_form", case.get("form", entry))
+            return None
+    nsum = int(case.get("space") or 1) if np_args is not None else nsum_many
     for w in case.get("widen") or []:
         nsum *= int(w[2])
 
@@ -369,7 +481,23 @@ def execute(rep, case):
                     for ix, d in zip(term, shp):
                         sd[ix] = int(d)
                 kw["size_dict"] = sd
-            got = ctg.array_contract(arrays, inputs, output, **kw)
+            via = case.get("via") or "array_contract"
+            if via == "array_contract":
+                got = ctg.array_contract(arrays, inputs, output, **kw)
+            else:
+                # the other entry points of the same interface (same labels, same implicit output)
+                how = dict(kw)
+                if "size_dict" not in how:
+                    how["shapes"] = [tuple(int(d) for d in shp) for shp in case["shapes"]]
+                if via == "expression":
+                    got = ctg.array_contract_expression(inputs, output, **how)(*arrays)
+                elif via == "tree":
+                    got = ctg.array_contract_tree(inputs, output, **how).contract(arrays)
+                elif via == "path":
+                    path = ctg.array_contract_path(inputs, output, **how)
+                    got = ctg.array_contract(arrays, inputs, output, optimize=path)
+                else:
+                    raise AssertionError(via)
         else:
             conv = tuple if case.get("indices_as_tuples") else list
             got = ctg.ncon(arrays, [conv(int(l) for l in term) for term in case["indices"]], **kw)
@@ -387,7 +515,7 @@ def execute(rep, case):
     want = np.asarray(want)
     if got.shape != want.shape:
         return (f"{mon}:shape", f"shape {got.shape} != numpy's {want.shape}")
-    if exact_kind(case["kind"]):
+    if exact_kind(case["kind"]) and float(np.max(np.abs(bound), initial=0.0)) < 2.0**52:
         rep.mon("exact_int")
         if not np.array_equal(got, want):
             return (f"{mon}:value", f"exact integer data: got {got.tolist()!r:.200} numpy {want.tolist()!r:.200}")
@@ -407,7 +535,10 @@ def describe(case):
     if e == "array_contract":
         ins = [[dec_label(x) for x in t] for t in case["inputs"]]
         out = None if case["output"] is None else [dec_label(x) for x in case["output"]]
-        return f"array_contract(inputs={ins!r}, output={out!r}, shapes={case['shapes']}, size_dict={bool(case.get('size_dict'))})"
+        extra = ""
+        if case.get("many"):
+            extra = f", via={case.get('via')}, nlabels={case.get('nlabels')}, once_only_ranks={case.get('once_ranks')}"
+        return f"array_contract(inputs={ins!r}, output={out!r}, shapes={case['shapes']}, size_dict={bool(case.get('size_dict'))}{extra})"
     return f"ncon(indices={case['indices']}, shapes={case['shapes']})"
 
 
@@ -987,6 +1118,175 @@ def gen_array_contract_case(rng, cs, tier):
     return case
 
 
+# ------------------------- contractions with many labels ------------------------- #
+# canonicalisation hands out 'a'-'z' to the first 26 labels, 'A'-'Z' to the 27th-52nd and unicode
+# symbols from chr(192) on afterwards; 'A' < 'a' < chr(192), so order of first appearance and sorted
+# order of the canonical symbols differ as soon as there are more than 26 labels.
+
+MANY_OPTIMIZE = ("greedy", "greedy", "greedy", "eager", "opportunistic")  # cheap presets only: 20-55 tensors rule out "optimal"; "auto" starts a hyper-optimizer (~0.1 s per call + a 2 s import)
+MANY_VIA = ("array_contract", "array_contract", "array_contract", "expression", "tree", "path")
+MANY_SPACE_CAP = 2.0**17.5  # < 2e5: product of ALL index sizes (E1 and numpy.einsum walk the full space)
+
+
+def gen_many_skeleton(rng, nlab):
+    """A network over labels 0..nlab-1 numbered in order of first appearance, made of many small
+    tensors: a few labels appear exactly once (spread over the appearance ranks < 26, 26..51, >= 52),
+    the others two or (10 %) three times.  -> (terms, sorted once-only labels)"""
+    once = set()
+    for lo, hi, nmin, nmax in ((0, 26, 1, 3), (26, 52, 1, 3), (52, nlab, 1, 2)):
+        hi = min(hi, nlab)
+        if hi > lo:
+            once.update(rng.sample(range(lo, hi), min(rng.randint(nmin, nmax), hi - lo)))
+    mult = {k: 1 if k in once else (3 if rng.random() < 0.1 else 2) for k in range(nlab)}
+    ranks = [1, 2, 2, 3, 3, 4] if nlab <= 52 else [2, 3, 3, 4, 4, 5]  # keeps the number of tensors < 60
+    terms = []
+    pending = {}
+    nxt = 0
+    while nxt < nlab or pending:
+        t = []
+        for _ in range(rng.choice(ranks)):
+            cands = [k for k in pending if k not in t or rng.random() < 0.04]  # rarely: a trace inside a tensor
+            if nxt < nlab and (not cands or rng.random() < 0.55):
+                k = nxt
+                nxt += 1
+                if mult[k] > 1:
+                    pending[k] = mult[k] - 1
+            elif cands:
+                k = rng.choice(cands)
+                pending[k] -= 1
+                if not pending[k]:
+                    del pending[k]
+            else:
+                break
+            t.append(k)
+        terms.append(t)
+    return terms, sorted(once)
+
+
+def many_sizes(rng, nlab, once):
+    """sizes 1-3; most labels get size 1 so that the product of all sizes stays below the cap; the
+    once-only (output) labels are mostly larger than 1, at least one in each of the rank ranges present."""
+    sizes = {k: 1 for k in range(nlab)}
+    for k in once:
+        sizes[k] = rng.choice([2, 2, 3, 3, 1])
+    for lo, hi in ((0, 26), (26, 52), (52, nlab)):
+        grp = [k for k in once if lo <= k < hi]
+        if grp and all(sizes[k] == 1 for k in grp):
+            sizes[rng.choice(grp)] = rng.choice([2, 3])
+    cap = max(2.0 ** rng.uniform(5, 17.5), math.prod(sizes.values()))
+    others = [k for k in range(nlab) if k not in once]
+    rng.shuffle(others)
+    misses = 0
+    for k in others:
+        d = rng.choice([2, 2, 2, 3])
+        if math.prod(sizes.values()) * d > min(cap, MANY_SPACE_CAP):
+            misses += 1
+            if misses > 3:
+                break
+            continue
+        sizes[k] = d
+    return sizes
+
+
+def unique_labels(rng, kind, n):
+    labels = []
+    taken = set()
+    for k in range(n):
+        for _ in range(200):
+            lab = _rand_label(rng, kind)
+            if lab not in taken:
+                break
+        else:
+            lab = ("fallback", k)
+        taken.add(lab)
+        labels.append(lab)
+    return labels
+
+
+def gen_many_array_contract_case(rng, cs, tier):
+    nlab = _wchoice(rng, [((27, 34), 3), ((35, 52), 4), ((53, 70), 4)])
+    nlab = rng.randint(*nlab)
+    terms, once = gen_many_skeleton(rng, nlab)
+    sizes = many_sizes(rng, nlab, once)
+    if rng.random() < 0.85:
+        output = None
+    else:
+        output = list(once) + [k for k in range(nlab) if k not in once and rng.random() < 0.04]
+        rng.shuffle(output)
+    kind = rng.choice(LABEL_KINDS)
+    labels = unique_labels(rng, kind, nlab)
+    return {
+        "entry": "array_contract",
+        "many": True,
+        "via": rng.choice(MANY_VIA),
+        "nlabels": nlab,
+        "once_ranks": list(once),
+        "inputs": [[enc_label(labels[k]) for k in t] for t in terms],
+        "output": None if output is None else [enc_label(labels[k]) for k in output],
+        "shapes": [[sizes[k] for k in t] for t in terms],
+        "size_dict": rng.random() < 0.3,
+        "inputs_as_lists": rng.random() < 0.3,
+        "label_kind": kind,
+        "kind": _wchoice(rng, [("float", 4), ("complex", 2), ("smallint", 4)]),
+        "optimize": rng.choice(MANY_OPTIMIZE),
+        "case_seed": cs,
+        "space": math.prod(sizes.values()),
+        "form": "array_contract-many-" + ("implicit" if output is None else "explicit") + ("/gt52" if nlab > 52 else "/le52"),
+    }
+
+
+LETTERS52 = "abcdefghijklmnopqrstuvwxyzABCDEFGHIJKLMNOPQRSTUVWXYZ"
+
+
+def gen_many_einsum_case(rng, cs, tier):
+    """cotengra.einsum with 27-52 distinct symbols (numpy's whole alphabet, both cases), string or
+    interleaved form, implicit (numpy: sorted, upper case first) or explicit output."""
+    nlab = rng.randint(27, 52)
+    terms, once = gen_many_skeleton(rng, nlab)
+    sizes = many_sizes(rng, nlab, once)
+    interleaved = rng.random() < 0.3
+    style = rng.choice(["shuffled", "shuffled", "appearance", "reverse"])
+    pool = list(range(52)) if interleaved else list(LETTERS52)
+    if style == "shuffled":
+        names = rng.sample(pool, nlab)
+    elif style == "appearance":
+        names = pool[:nlab]  # a-z then A-Z in order of first appearance: sorted order differs
+    else:
+        names = pool[:nlab][::-1]
+    if rng.random() < 0.5:
+        out = None
+        out_exp = sorted(names[k] for k in once)
+    else:
+        out = list(once) + [k for k in range(nlab) if k not in once and rng.random() < 0.04]
+        rng.shuffle(out)
+        out = out_exp = [names[k] for k in out]
+    case = {
+        "many": True,
+        "nlabels": nlab,
+        "shapes": [[sizes[k] for k in t] for t in terms],
+        "kind": _wchoice(rng, [("float", 4), ("complex", 2), ("smallint", 4)]),
+        "optimize": rng.choice(MANY_OPTIMIZE),
+        "case_seed": cs,
+        "space": math.prod(sizes.values()),
+        "expanded": {"inputs": [[names[k] for k in t] for t in terms], "output": list(out_exp)},
+        "ell_in": "none",
+        "ell_out": "implicit" if out is None else "none",
+        "k1": False,
+        "single": None,
+    }
+    if interleaved:
+        case.update(entry="interleaved", sublists=[[names[k] for k in t] for t in terms], out=out)
+        form = "interleaved-" + ("implicit" if out is None else "explicit")
+    else:
+        eq = ",".join("".join(names[k] for k in t) for t in terms)
+        if out is not None:
+            eq += "->" + "".join(out)
+        case.update(entry="einsum", eq=eq)
+        form = "string-" + ("implicit" if out is None else "explicit")
+    case["form"] = form + "/many-symbols"
+    return case
+
+
 def gen_ncon_case(rng, cs, tier):
     nops = _wchoice(rng, [(1, 1), (2, 4), (3, 3), (4, 2)])
     slots = [[] for _ in range(nops)]
@@ -1057,6 +1357,9 @@ def case_key(case):
             sk = repr(case.get("eq") or case.get("sublists"))
         form = case["form"].split("/")[0]
         return (form, sk, ranks)
+    if e == "array_contract" and case.get("many"):
+        terms, out = numbered(case)
+        return ("array_contract-many", terms, out if case["output"] is not None else None, ranks)
     if e == "array_contract":
         return ("array_contract", equivalent_eq(case) if case["output"] is not None else equivalent_eq(case).split("->")[0], ranks)
     return ("ncon", equivalent_eq(case), ranks)
@@ -1095,6 +1398,14 @@ def run_case(rep, case, seen_sig):
         if nbs:
             rep.count("broadcast_dims_per_operand", "differing" if len(set(nbs)) > 1 else f"all={nbs[0]}")
     elif e == "array_contract":
+        if case.get("many"):
+            rep.count("many_labels_via", case.get("via"))
+            rep.count("many_labels_count", f"{case['nlabels'] // 10 * 10}-{case['nlabels'] // 10 * 10 + 9}")
+            rk = case["once_ranks"]
+            rep.count(
+                "many_labels_once_only_rank_ranges",
+                "+".join(n for n, lo, hi in (("early", 0, 26), ("middle", 26, 52), ("late", 52, 10**6)) if any(lo <= k < hi for k in rk)),
+            )
         rep.count("array_contract_labels", f"{case['label_kind']} | output={'None' if case['output'] is None else 'given'} | size_dict={case['size_dict']}")
     rep.count("optimize", case.get("optimize"))
     rep.count("dtype_kind", case["kind"])
@@ -1147,6 +1458,15 @@ def run_shard(rep, tier, seed, shard, nshards):
         else:
             case = gen_ncon_case(rng, cs, tier)
         run_case(rep, case, seen_sig)
+        # on top of the workload above (its seeds are untouched): contractions with 27-70 labels
+        if k % MANY_EVERY == 0:
+            cs = f"{seed}/{PID}/{shard}/many/{k}"
+            rng = rng_for(cs)
+            if (k // MANY_EVERY) % 3 < 2:
+                case = gen_many_array_contract_case(rng, cs, tier)
+            else:
+                case = gen_many_einsum_case(rng, cs, tier)
+            run_case(rep, case, seen_sig)
 
 
 def replay(rep, v):
